@@ -10,6 +10,7 @@ import (
 	"time"
 
 	"github.com/lindb/lindb/series/metric"
+	"github.com/lindb/lindb/tsdb"
 
 	"github.com/lindb/lindb/zzverif/internal/core"
 	"github.com/lindb/lindb/zzverif/internal/extract"
@@ -230,6 +231,20 @@ func (r *caseRun) guard(what string, f func() error) bool {
 	return err == nil
 }
 
+// opAppendBad appends a log entry whose payload does not decompress.
+func (r *caseRun) opAppendBad() {
+	if r.n.part == nil {
+		return
+	}
+	e := entry{Seq: int64(len(r.entries)), Bad: true}
+	if !r.guard("append", func() error { return r.n.appendEntry(e) }) {
+		return
+	}
+	r.entries = append(r.entries, e)
+	r.c.Op("appendbad", r.n.pos().String())
+	r.c.Branch("corrupt-entry")
+}
+
 func (r *caseRun) opAppend(m, t int) {
 	if r.n.part == nil {
 		return
@@ -396,7 +411,7 @@ func (r *caseRun) opApplyInj(inj int) {
 			r.emitFreeze(gapObs)
 			r.emitCommitAck(gapObs)
 			r.c.Branch("flush-completed-inside-writeRows-gap")
-		case <-time.After(1500 * time.Millisecond):
+		case <-time.After(400 * time.Millisecond):
 			// the flush waits for this writer: it completes after WriteRows
 			r.c.Branch("flush-waits-for-writer")
 		}
@@ -581,6 +596,91 @@ func (r *caseRun) opFlushData(crashAt int, whole bool) {
 	}
 }
 
+// opFlushDataInnerApply = dataFamily.Flush with one whole iteration of the replica loop (lindb's own
+// Replica: validate, WriteRows, CommitSequence) run INSIDE it, right after the memory database
+// became immutable and before its table is written (tsdb.VerifC11SetFlushHooks: the place where
+// flushMemoryDatabase creates the data flusher).
+func (r *caseRun) opFlushDataInnerApply() {
+	before := r.n.pos()
+	fired := false
+	restore := tsdb.VerifC11SetFlushHooks(func() {
+		if fired {
+			return
+		}
+		fired = true
+		r.sh.freeze(r.entries)
+		r.c.Op("freeze", before.String())
+		r.opApply()
+		r.c.Branch("replica-inside-flush")
+	}, nil)
+	o, ok := r.runFlush()
+	restore()
+	if !ok {
+		return
+	}
+	if !fired {
+		r.sh.freeze(r.entries)
+		r.emitFreeze(o)
+	}
+	r.emitCommitAck(o)
+}
+
+// opFlushMetaFail = database.FlushMeta during which the creation of the table file of one
+// dictionary store fails (a file-system error): the stores flushed before it are durable, this one
+// and the later ones keep their prepared (immutable) maps for the next round.
+// store: "metric" (nothing of the model's dictionaries gets flushed) or "tv" (metric names + schemas do).
+func (r *caseRun) opFlushMetaFail(store string) {
+	root := r.n.root
+	failed := false
+	tableFail = func(fileName string) error {
+		if strings.HasPrefix(fileName, root) && strings.Contains(fileName, "/meta/kv/"+store+"/") {
+			failed = true
+			return fmt.Errorf("injected: cannot create %s", fileName[len(root):])
+		}
+		return nil
+	}
+	var err error
+	func() {
+		defer func() {
+			if p := recover(); p != nil {
+				r.c.Fail("panic", fmt.Sprintf("flush meta with a failing table creation panicked: %v", p))
+				r.broken = true
+			}
+		}()
+		err = r.n.flushMeta()
+	}()
+	tableFail = nil
+	if r.broken {
+		return
+	}
+	if !failed {
+		if err != nil {
+			r.failHarness("flush meta", err)
+			return
+		}
+		// the store had nothing to flush: an ordinary round
+		r.sh.metric.prepare(r.sh.swapOnEmpty)
+		r.sh.tagv.prepare(r.sh.swapOnEmpty)
+		r.sh.metric.flush()
+		r.sh.tagv.flush()
+		r.c.Op("fmeta", r.n.pos().String())
+		return
+	}
+	if err == nil {
+		r.failHarness("flush meta", fmt.Errorf("table creation of store %s failed but FlushMeta reported success", store))
+		return
+	}
+	r.sh.metric.prepare(r.sh.swapOnEmpty)
+	r.sh.tagv.prepare(r.sh.swapOnEmpty)
+	p := r.n.pos().String()
+	r.c.Op("mprep", p)
+	if store == "tv" {
+		r.sh.metric.flush()
+		r.c.Op("mflushm", p)
+	}
+	r.c.Branch("meta-flush-failed-at-" + store)
+}
+
 // opGC = one tick of lindb's write-ahead-log garbage-collect task (writeAheadLog.destroy ->
 // partition.IsExpire: queue Sync + GC, and for a family past its write window: if every consumer
 // group IsEmpty, stop + close the partition and remove its directory).
@@ -745,6 +845,9 @@ func (r *caseRun) observeDurable() durableObs {
 	}
 	seenM, seenP := map[int]bool{}, map[string]bool{}
 	for _, e := range r.entries {
+		if e.Bad {
+			continue
+		}
 		sids, mid, err := r.n.resolve(e)
 		if !seenM[e.Metric] {
 			seenM[e.Metric] = true
@@ -859,12 +962,17 @@ func (r *caseRun) opRecover(img string, partial bool) {
 	if p.hasStored {
 		stored = p.stored
 	}
-	if n.imageAck > stored {
-		r.c.Fail(keyAckGtStored, fmt.Sprintf("crash image: consumer group ack %d > sequence %d stored with the data", n.imageAck, stored))
+	// (a corrupt entry carries no rows: IgnoreMessage acknowledges it when it directly follows the
+	// acknowledged position, so only entries with rows count)
+	for _, e := range r.entries {
+		if !e.Bad && e.Seq > stored && e.Seq <= n.imageAck {
+			r.c.Fail(keyAckGtStored, fmt.Sprintf("crash image: consumer group ack %d covers entry %d, but the sequence stored with the data is %d", n.imageAck, e.Seq, stored))
+			break
+		}
 	}
 	// clause 3: every appended entry is in a data file or still in the log above the ack
 	for _, e := range r.entries {
-		if obs.files[e.Seq] > 0 {
+		if e.Bad || obs.files[e.Seq] > 0 {
 			continue
 		}
 		if n.part != nil && e.Seq > p.ack {
@@ -937,6 +1045,9 @@ func (r *caseRun) finish() {
 	}
 	cache := map[metric.ID]map[uint32]map[int]float64{}
 	for _, e := range r.entries {
+		if e.Bad {
+			continue
+		}
 		cnt := 0
 		for _, id := range r.ids[e.Seq] {
 			v, ok := cache[id.metricID]
@@ -1045,6 +1156,56 @@ func (r *caseRun) observationB() {
 	if p.hasStored && p.stored == 0 && p.seq == 1 {
 		r.c.Note("observation (b): rows of entry 1 are in the flushed table, the stored sequence is 0; after a crash entry 1 is replayed on top of them")
 	}
+	r.opCrash()
+}
+
+// corruptAfterUnflushed: entries 0 and 1 applied but not flushed, then a corrupt entry is consumed,
+// then a crash: the acknowledged position must not have moved past the unflushed entries.
+func (r *caseRun) corruptAfterUnflushed() {
+	r.opAppend(0, 0)
+	r.opApply()
+	r.opAppend(1, 1)
+	r.opApply()
+	r.opAppendBad()
+	r.opApply()
+	r.opCrash()
+	if r.stop() {
+		return
+	}
+	r.applyAll()
+	// a corrupt entry right behind a fully flushed log IS acknowledged without a flush
+	r.opFlushMeta()
+	r.opFlushIndex()
+	r.opFlushData(noCrash, false)
+	r.opAppendBad()
+	r.opApply()
+	r.opCrash()
+}
+
+// replicaInsideFlush: entry 0 unflushed in the memory database; Flush switches it to immutable, and
+// before the table is written a whole Replica of entry 1 runs; crash before the next flush.
+func (r *caseRun) replicaInsideFlush() {
+	r.opAppend(0, 0)
+	r.opApply()
+	r.opFlushMeta()
+	r.opFlushIndex()
+	r.opAppend(0, 0)
+	r.opFlushDataInnerApply()
+	r.opCrash()
+}
+
+// metaFlushFailsThenRetry: the table file of a metadata store cannot be created in one round; the
+// next round succeeds; data is flushed; restart.
+func (r *caseRun) metaFlushFailsThenRetry(store string) {
+	r.opAppend(0, 0)
+	r.opApply()
+	r.opFlushMetaFail(store)
+	if r.stop() {
+		return
+	}
+	r.opFlushMeta()
+	r.opFlushIndex()
+	r.opFlushData(noCrash, false)
 	r.opCrash()
 }
 
@@ -1216,6 +1377,12 @@ func (r *caseRun) randomCase(disciplined bool) {
 	}
 	for i := 0; i < nOps && !r.broken && !r.tainted && !r.terminal && len(r.entries) < 300; i++ {
 		switch k := rng.Intn(100); {
+		case k < 4:
+			// a log entry that does not decompress
+			r.opAppendBad()
+			if rng.Intn(3) != 0 {
+				r.applyAll()
+			}
 		case k < 40:
 			m, t := pick()
 			appendAndMaybeApply(m, t)
@@ -1293,6 +1460,13 @@ func (r *caseRun) randomCase(disciplined bool) {
 			if inner == innerMeta && r.opFlushInnerCrash(innerMeta) {
 				continue
 			} else if inner != innerMeta {
+				if rng.Intn(8) == 0 {
+					// a file-system error in this round's metadata flush, retried at once
+					r.opFlushMetaFail([]string{"metric", "tv"}[rng.Intn(2)])
+					if r.stop() {
+						break
+					}
+				}
 				r.opFlushMeta()
 			}
 			if maybeCrash(8) {
@@ -1320,6 +1494,11 @@ func (r *caseRun) randomCase(disciplined bool) {
 				}
 			} else if rng.Intn(4) == 0 && injected() {
 				// the flush of this round ran inside Replica
+			} else if rng.Intn(6) == 0 && !r.n.pending() && len(known) > 0 {
+				// a whole Replica of an entry with old names inside this round's family flush
+				p := known[rng.Intn(len(known))]
+				r.opAppend(p[0], p[1])
+				r.opFlushDataInnerApply()
 			} else {
 				if crashAt != noCrash {
 					crashes++
@@ -1359,7 +1538,7 @@ func (area) Run(c *core.Ctx) error {
 		r := &caseRun{c: c, rng: c.Rng(i), famTime: hour, ids: map[int64][]ids{}, lossFate: map[int64]string{},
 			sh: &shadow{metric: newDict(), tagv: newDict(), index: newDict(), swapOnEmpty: swap, fate: map[int64]string{}, idxFate: map[string]string{}}}
 		r.innerK = -1
-		if i == 5 || (i > 9 && i%8 == 6) {
+		if i == 5 || (i > 13 && i%8 == 6) {
 			// a family whose hour ended 5 hours ago: with ahead = 1h it is past its write window
 			r.expired, r.famTime = true, hour-6*3600000
 		}
@@ -1390,6 +1569,15 @@ func (area) Run(c *core.Ctx) error {
 			case i >= 6 && i <= 9:
 				c.Branch("crash-inside-index-flush-scripted")
 				r.crashInsideIndexFlush(i - 6)
+			case i == 10:
+				c.Branch("corrupt-after-unflushed")
+				r.corruptAfterUnflushed()
+			case i == 11:
+				c.Branch("replica-inside-flush-scripted")
+				r.replicaInsideFlush()
+			case i == 12 || i == 13:
+				c.Branch("meta-flush-fails-then-retry")
+				r.metaFlushFailsThenRetry([]string{"metric", "tv"}[i-12])
 			case i%4 == 3:
 				c.Branch("wild")
 				r.randomCase(false)
